@@ -19,9 +19,15 @@ MANIFEST = {
             "(n <= 10), the x/y derivative identity of all 91 modes of radial order "
             "<= 12 (makegammas(8) and makegammas(12)) as integer polynomial identities, hence (bounded, radial order <= 12) d/dx Z_i = sum_j "
             "gamma^x_ij Z_j and d/dy likewise as HasDerivAt statements about the model's modes; for EVERY nzrad that derivative statement is "
-            "reduced to the decidable integer-polynomial table. The model is tied to the code by a correspondence driver (Noll exhaustively to "
-            "1e5/1e6 + block boundaries to 2^49, radial values, pixels, integer-polynomial pixels, arrays, phases, gamma matrices) and a "
-            "direct oracle on the real code finds failing inputs.",
+            "reduced to the decidable integer-polynomial table. The side conditions of the unit rms / unit peak-to-valley theorems are "
+            "discharged for the ACTUAL generated images at rot = 0: pixel = Noll constant x exact rational pixel (all j, N), so 'not constant / "
+            "not zero on the grid' is a decidable exact check, kernel-evaluated as a TABLE for j <= 28, N <= 12 with the explicit exclusion lists "
+            "(every mode for N = 1, piston/defocus/... for N = 2, piston and Noll 15, 25 for N = 3, none for 4 <= N <= 12); the pupil is "
+            "non-empty for every N >= 1; the integer division in the polynomial coefficients is exact for all orders; an integral float "
+            "count/size is the integer call. The model is tied to the code by a correspondence driver (Noll exhaustively to "
+            "1e5/1e6 + block boundaries to 2^49, radial values, pixels, integer-polynomial pixels, arrays, phases, gamma matrices, the "
+            "degeneracy table, int(numpy.round(.)) of float counts) and a direct oracle on the real code finds failing inputs (incl. call "
+            "sequences over the normalisations, package-level names, numpy integer scalars, the Noll constant read off the pixels).",
     "note": "Trusted: Lean kernel + propext/Classical.choice/Quot.sound; Mathlib's Real.sqrt/cos/sin/intervalIntegral; the correspondence "
             "harness. Not proved for all orders (tables + numeric oracle only): orthonormality / Gram -> identity under grid refinement, "
             "the derivative rules beyond radial order 12; IEEE rounding and NumPy semantics are exercised, not modelled.",
@@ -35,9 +41,16 @@ REQUIRED = ["nollN_spec", "nollN_unique", "zernIndex_valid", "nollOf_zernIndex",
             "mode_polar", "table_gammaNM_noll", "gammaNM_noll", "table_gamma_dx", "table_gamma_dy", "gamx_cleared", "gamy_cleared",
             "modeCart_eq_poly", "nollMode_eq_poly", "table_gamma_dx_eval", "table_gamma_dy_eval", "gamma_dx_le8", "gamma_dy_le8",
             "residual_dx_eval", "residual_dy_eval", "gamma_dx_of_table", "gamma_dy_of_table", "table_gamma_dx12", "table_gamma_dy12",
-            "gamma_dx_le12", "gamma_dy_le12"]
+            "gamma_dx_le12", "gamma_dy_le12",
+            # round 3
+            "nollPixel_eq_polyPixel", "p2v_ne_zero_of_two", "sumsq_ne_zero_of_mem", "noll_p2v_ne_zero", "noll_sumsq_ne_zero",
+            "pupil_nonempty", "table_nondegenerate_le6", "table_nondegenerate_7_9", "table_nondegenerate_10_12", "table_nondegenerate",
+            "p2v_unit_noll", "rms_unit_noll", "p2v_unit_noll_ge4", "rms_unit_noll_ge4", "radialCoefInt_exact",
+            "table_radialCoefInt_exact", "npRound_integral", "count_float_integral"]
 
 RT = 1e-9
+EPS = 2.0 ** -52
+GRAM_C = 1.0      # |Gram - I| <= GRAM_C·(n_max+1)/N; observed on the clean tree: <= 0.63 (all N in 24..140, 200..512, J <= 45, any rot)
 
 
 # ----------------------------------------------------------------------------------------------- helpers
@@ -85,6 +98,47 @@ def radial_scale(n, m, r):
         s += abs(r) ** (n - 2 * i) * math.factorial(n - i) / (math.factorial(i) * math.factorial((n + m) // 2 - i)
                                                              * math.factorial((n - m) // 2 - i))
     return s
+
+
+def apis():
+    """the public spellings of the zernike functions: module, sub-package and package level"""
+    import aotools
+    from aotools import functions as F
+    from aotools.functions import zernike as Z
+    return [("aotools.functions.zernike", Z), ("aotools.functions", F), ("aotools", aotools)]
+
+
+def as_int(rng, v, wide=True):
+    """the same integer as a Python int or one of numpy's integer scalars (all are 'int' to a caller)"""
+    kinds = [int, numpy.int64, numpy.intp] + ([numpy.int32] if (not wide or abs(v) < 2 ** 26) else [])
+    return rng.choice(kinds)(v)
+
+
+def as_list(rng, js):
+    """an index list as list / tuple / numpy integer array"""
+    k = rng.randrange(4)
+    if k == 0:
+        return list(js)
+    if k == 1:
+        return tuple(js)
+    if k == 2:
+        return numpy.array(js, dtype=numpy.int64)
+    return [as_int(rng, j) for j in js]
+
+
+def coef_abs_sum(n, m):
+    """Σ|c_i| of R_n^m: the size of the terms the factorial sum adds up at r = 1"""
+    return radial_scale(n, m, 1.0)
+
+
+def const_excl(j, N):
+    """python twin of the Lean `constExcl` (modes j <= 28 constant on the N-grid at rot = 0, N <= 12)"""
+    return N == 1 or (N == 2 and j in (1, 4, 6, 11, 12, 14, 15, 22, 24, 25, 26, 28)) or (N == 3 and j in (1, 15, 25))
+
+
+def zero_excl(j, N):
+    """python twin of the Lean `zeroExcl` (modes j <= 28 identically zero on the N-grid at rot = 0, N <= 12)"""
+    return (N == 1 and j not in (1, 4, 11, 22)) or (N == 2 and j in (4, 6, 12, 15, 22, 24, 25, 28)) or (N == 3 and j in (15, 25))
 
 
 def stencil(k):
@@ -252,6 +306,55 @@ def correspondence(chk, quick):
         add("C12 gammaint %d" % nzrad, f)
         chk.count("gammaint:nzrad=%d" % nzrad)
         chk.case(("corr", "gammaint", nzrad), sample=None)
+    # (h) the exact-rational degeneracy table behind p2v_unit_noll / rms_unit_noll (table_nondegenerate, rot = 0, j <= 28, N <= 12):
+    #     'mode j is constant / identically zero on the N-grid' as computed by the model at ℚ = what the implementation produces
+    Jt = 28
+    for N in range(1, 13):
+        imgs = [Z.zernike_noll(j, N) for j in range(1, Jt + 1)]
+        exp = []
+        for im in imgs:
+            exp += [int(float(im.max() - im.min()) > 1e-6), int(float((im ** 2).sum()) > 1e-12)]
+        lst_c = [j for j in range(1, Jt + 1) if const_excl(j, N)]
+        lst_z = [j for j in range(1, Jt + 1) if zero_excl(j, N)]
+
+        def f(ans, N=N, exp=exp, lst_c=lst_c, lst_z=lst_z):
+            got = [int(t) for t in ans.split()]
+            if got != exp:
+                k = next((i for i in range(min(len(got), len(exp))) if got[i] != exp[i]), 0)
+                return ("zernike_noll(%d,%d) is %s on the grid according to the implementation, the exact model says the opposite"
+                        % (k // 2 + 1, N, ("not constant" if exp[k] else "constant") if k % 2 == 0 else ("not zero" if exp[k] else "zero")))
+            if [i // 2 + 1 for i in range(0, len(got), 2) if not got[i]] != lst_c or [i // 2 + 1 for i in range(1, len(got), 2) if not got[i]] != lst_z:
+                return "exclusion lists constExcl / zeroExcl of the theorems differ from the model's table for N = %d" % N
+        add("C12 degen %d %d" % (N, Jt), f)
+        chk.count("degen:N=%d" % N)
+        chk.case(("corr", "degen", N, Jt), sample={"op": "C12 degen", "N": N, "constant": lst_c, "zero": lst_z} if N == 2 else None)
+    # (i) the count path takes int(numpy.round(J)), int(numpy.round(N)): float counts / sizes (dyadic, so num/den is exact)
+    for _ in range(12 if quick else 120):
+        dJ, dN = rng.choice([1, 2, 4, 8]), rng.choice([1, 2, 4, 8])
+        nJ, nN = rng.randint(0, 9 * dJ), rng.randint(dN // 2 + 1, 9 * dN)
+        if rng.random() < 0.4:
+            nJ = (2 * rng.randint(0, 8) + 1) * dJ // 2 if dJ > 1 else nJ        # exact ties k + 1/2: numpy rounds them to even
+        Jf, Nf = nJ / dJ, nN / dN
+        typ = rng.choice([float, numpy.float64, numpy.float32])
+        with numpy.errstate(all="ignore"):
+            e = Z.zernikeArray(typ(Jf), typ(Nf))
+        cell = {}
+
+        def fJ(ans, cell=cell, e=e, Jf=Jf, Nf=Nf):
+            cell["J"] = int(ans)
+            if e.shape[0] != cell["J"]:
+                return "zernikeArray(%r, %r) has %d modes, int(round(J)) of the model = %d" % (Jf, Nf, e.shape[0], cell["J"])
+
+        def fN(ans, cell=cell, e=e, Jf=Jf, Nf=Nf):
+            k = int(ans)
+            if e.shape[1:] != (k, k):
+                return "zernikeArray(%r, %r) has size %s, int(round(N)) of the model = %d" % (Jf, Nf, e.shape[1:], k)
+            if "J" in cell and e.shape[0] == cell["J"] and not numpy.array_equal(e, Z.zernikeArray(cell["J"], k)):
+                return "zernikeArray(%r, %r) ≠ zernikeArray(%d, %d)" % (Jf, Nf, cell["J"], k)
+        add("C12 round %d %d" % (nJ, dJ), fJ)
+        add("C12 round %d %d" % (nN, dN), fN)
+        chk.count("count-float:%s:%s" % (typ.__name__, "tie" if (2 * nJ) % dJ == 0 and nJ % dJ else "no-tie"))
+        chk.case(("corr", "count-float", Jf, Nf, typ.__name__), sample={"op": "C12 round", "J": Jf, "N": Nf})
     ans = common.run_driver(lines, "C12")
     nbad = 0
     for line, a, fn in zip(lines, ans, checks):
@@ -268,6 +371,7 @@ def oracle(chk, quick):
     Z = _Z()
     import aotools
     rng = chk.rng
+    APIS = apis()
 
     # D8 class: the mode functions must run at all
     try:
@@ -318,10 +422,26 @@ def oracle(chk, quick):
             continue
         chk.oracle_cases += 1
         chk.case(("oracle", "noll-large", j))
-        got = [int(t) for t in Z.zernIndex(j)]
+        api, A = rng.choice(APIS)
+        jj = as_int(rng, j)
+        got = [int(t) for t in A.zernIndex(jj)]
         if got != [n, m]:
             chk.fail("noll:large", "zernIndex(%d) = %s, but (n, m) = (%d, %d) is the mode with that index" % (j, got, n, m),
-                     {"call": "zernIndex(%d)" % j, "got": got, "expected": [n, m]})
+                     {"call": "%s.zernIndex(%s(%d))" % (api, type(jj).__name__, j), "got": got, "expected": [n, m]})
+    # the same indices as numpy integer scalars and through the package-level names: the answer must not depend on the spelling
+    for _ in range(1500 if quick else 30000):
+        j = rng.choice([rng.randint(1, 300), rng.randint(1, 2 ** 26 - 1)])
+        api, A = rng.choice(APIS)
+        jj = rng.choice([numpy.int64, numpy.int32, numpy.intp])(j)
+        chk.oracle_cases += 1
+        chk.count("oracle:noll:%s:%s" % (api, type(jj).__name__))
+        with numpy.errstate(all="ignore"):
+            got = [int(t) for t in A.zernIndex(jj)]
+        ref = [int(t) for t in Z.zernIndex(j)]
+        if got != ref or noll_of(*got) != j:
+            chk.fail("noll:numpy-int", "%s.zernIndex(%s(%d)) = %s, zernIndex(%d) = %s" % (api, type(jj).__name__, j, got, j, ref),
+                     {"call": "%s.zernIndex(numpy.%s(%d))" % (api, type(jj).__name__, j), "got": got, "expected": ref})
+    chk.case(("oracle", "noll-numpy-int"))
     if not modes_ok:
         return
 
@@ -358,13 +478,19 @@ def oracle(chk, quick):
         chk.oracle_cases += 1
         chk.count("oracle:grid:N%s:%s:rot%s" % ("odd" if N % 2 else "even", norm, "0" if rot == 0 else "≠0"))
         chk.case(("oracle", "grid", N, norm, rot, J, tuple(js)), sample={"N": N, "norm": norm, "rot": rot, "J": J, "list": js} if it < 2 else None)
-        rep = {"N": N, "norm": norm, "rot": rot, "J": J, "list": js}
-        jl = list(js)
+        api, A = rng.choice(APIS)                                   # module / sub-package / package-level spelling
+        chk.count("oracle:api:%s" % api)
+        Jc, Nc = as_int(rng, J), as_int(rng, N)                     # Python int or a numpy integer scalar
+        chk.count("oracle:int-type:%s" % type(Jc).__name__)
+        rep = {"N": N, "norm": norm, "rot": rot, "J": J, "list": js, "api": api, "J_type": type(Jc).__name__, "N_type": type(Nc).__name__}
+        jl = as_list(rng, js)
+        jl_before = [int(t) for t in jl]
         with numpy.errstate(all="ignore"):
-            full = Z.zernikeArray(J, N, norm=norm, rot=rot)
-            sub = Z.zernikeArray(jl, N, norm=norm, rot=rot)
-            raw = Z.zernikeArray(J, N, rot=rot)
-        if jl != js:
+            # the un-normalised modes, one by one and BEFORE any normalised call (only used to recognise degenerate modes)
+            raw = numpy.array([A.zernike_noll(as_int(rng, j), Nc, rot) for j in range(1, J + 1)])
+            full = A.zernikeArray(Jc, Nc, norm=norm, rot=rot)
+            sub = A.zernikeArray(jl, Nc, norm=norm, rot=rot)
+        if [int(t) for t in jl] != jl_before or jl_before != js:
             chk.fail("pure:index-list", "zernikeArray modified its index list argument", rep)
         if full.shape != (J, N, N) or sub.shape != (len(js), N, N):
             chk.fail("shape:zernikeArray", "zernikeArray shapes %s / %s" % (full.shape, sub.shape), rep)
@@ -408,9 +534,9 @@ def oracle(chk, quick):
         al = rng.uniform(-3, 3)
         keep = cs.copy()
         with numpy.errstate(all="ignore"):
-            ph = Z.phaseFromZernikes(cs, N, norm=norm, rot=rot)
-            ph2 = Z.phaseFromZernikes(cs2, N, norm=norm, rot=rot)
-            ph3 = Z.phaseFromZernikes(list(al * cs + cs2), N, norm=norm, rot=rot)
+            ph = A.phaseFromZernikes(cs, Nc, norm=norm, rot=rot)
+            ph2 = A.phaseFromZernikes(cs2, N, norm=norm, rot=rot)
+            ph3 = A.phaseFromZernikes(list(al * cs + cs2), N, norm=norm, rot=rot)
         if not numpy.array_equal(cs, keep):
             chk.fail("pure:coefficients", "phaseFromZernikes modified its coefficient argument", rep)
         if numpy.isfinite(full).all():
@@ -423,10 +549,77 @@ def oracle(chk, quick):
                 chk.fail("phase-linear:superposition:%s" % norm, "phaseFromZernikes(a·c+d) ≠ a·phase(c)+phase(d)", dict(rep, coeffs=cs.tolist(),
                                                                                                            coeffs2=cs2.tolist(), a=al))
         # a second identical call gives the identical array (no state between calls)
+        full_copy = full.copy()
         with numpy.errstate(all="ignore"):
-            again = Z.zernikeArray(J, N, norm=norm, rot=rot)
-        if not numpy.array_equal(again, full, equal_nan=True):
+            again = A.zernikeArray(J, N, norm=norm, rot=rot)
+        if not numpy.array_equal(again, full_copy, equal_nan=True):
             chk.fail("state:zernikeArray", "two identical zernikeArray calls differ", rep)
+
+    # ---- call SEQUENCES over the normalisations for one (J, N, rot): every answer must be the one a fresh call gives, whatever was
+    #      asked before, and an array handed out earlier must not change when the function is called again (no shared buffers)
+    for it in range(10 if quick else 150):
+        N = rng.randint(4, 28)
+        J = rng.randint(2, 12)
+        rot = rng.choice([0.0, rng.uniform(-7, 7)])
+        api, A = rng.choice(APIS)
+        perm = ["noll", "p2v", "rms"]
+        rng.shuffle(perm)
+        seq = perm + perm[1::-1] + [rng.choice(perm)]          # a b c b a x: every norm is asked both before and after every other
+        chk.oracle_cases += 1
+        chk.count("oracle:sequence:%s" % "-".join(seq[:3]))
+        chk.case(("oracle", "sequence", N, J, rot, tuple(seq)), sample={"N": N, "J": J, "rot": rot, "norms": seq} if it < 2 else None)
+        pup = aotools.circle(N / 2., N)
+        with numpy.errstate(all="ignore"):
+            raw = numpy.array([A.zernike_noll(j, N, rot) for j in range(1, J + 1)])
+        live = [z for z in range(J) if float(raw[z].max() - raw[z].min()) >= 1e-6]      # modes that are not constant on this grid
+        if len(live) < J:                                       # a degenerate mode (none for N >= 4 at rot = 0): normalisation undefined
+            chk.count("oracle:sequence:degenerate-skipped")
+            continue
+        handed, first, calls, bad = [], {}, [], None
+        for k, norm in enumerate(seq):
+            kind = rng.choice(["count", "count", "phase"]) if k else "count"
+            calls.append("%s.%s" % (api, ("zernikeArray(%d,%d,norm=%r,rot=%r)" % (J, N, norm, rot)) if kind == "count" else
+                                    ("phaseFromZernikes(<%d coefficients>,%d,norm=%r,rot=%r)" % (J, N, norm, rot))))
+            rep = {"N": N, "J": J, "rot": rot, "api": api, "calls": list(calls)}
+            with numpy.errstate(all="ignore"):
+                ref = A.zernikeArray(list(range(1, J + 1)), N, norm=norm, rot=rot)      # the list path, asked now
+                if kind == "count":
+                    out = A.zernikeArray(J, N, norm=norm, rot=rot)
+                else:
+                    cs = numpy.array([rng.uniform(-2, 2) for _ in range(J)])
+                    out = A.phaseFromZernikes(cs, N, norm=norm, rot=rot)
+            if kind == "count":
+                for z in live:
+                    if out.shape != ref.shape or not numpy.allclose(out[z], ref[z], rtol=1e-12, atol=1e-12):
+                        bad = ("sequence:list-eq-slices:%s" % norm, "after the calls %s: zernikeArray(%d,%d,%s,rot=%r)[%d] ≠ zernikeArray([1..%d],…)[%d]"
+                               % (calls[:-1], J, N, norm, rot, z, J, z), dict(rep, mode=z + 1))
+                        break
+                    v = (float(out[z].max() - out[z].min()) if norm == "p2v" else
+                         float(numpy.sqrt((out[z] ** 2).sum() / pup.sum())) if norm == "rms" else 1.0)
+                    if not abs(v - 1) <= RT:
+                        bad = ("sequence:unit-%s" % norm, "after the calls %s: zernikeArray(%d,%d,%s,rot=%r)[%d] has %s %r ≠ 1"
+                               % (calls[:-1], J, N, norm, rot, z, norm, v), dict(rep, mode=z + 1, got=v))
+                        break
+                if bad is None and norm in first and not numpy.array_equal(out, first[norm]):
+                    bad = ("sequence:state:%s" % norm, "zernikeArray(%d,%d,%s,rot=%r) differs from the same call made earlier in %s"
+                           % (J, N, norm, rot, calls), rep)
+                first.setdefault(norm, out.copy())
+            else:
+                lin = numpy.tensordot(cs, ref, 1)
+                sc = max(1.0, float(abs(ref).max()) * float(abs(cs).sum()))
+                if not (out.shape == (N, N) and float(abs(out - lin).max()) <= RT * sc):
+                    bad = ("sequence:phase-linear:%s" % norm, "after the calls %s: phaseFromZernikes(c,%d,%s,rot=%r) ≠ Σ c_z·zernikeArray([1..%d],…)[z]"
+                           % (calls[:-1], N, norm, rot, J), dict(rep, coeffs=cs.tolist()))
+            if bad is None:
+                for k0, arr, keep in handed:
+                    if not numpy.array_equal(arr, keep, equal_nan=True):
+                        bad = ("sequence:earlier-result-modified", "the array returned by call %d (%s) was changed by the later call %s"
+                               % (k0 + 1, calls[k0], calls[-1]), dict(rep, modified_result_of_call=k0 + 1))
+                        break
+            if bad:
+                chk.fail(*bad)
+                break
+            handed.append((k, out, out.copy()))
 
     # ---- all rotations: cos(mθ+rot) = cos(rot)·cos(mθ) − sin(rot)·sin(mθ), i.e. the rotated cosine mode is that combination of
     # the unrotated cosine and sine partners (and similarly for the sine mode) — evaluated in one process with the unrotated mode
@@ -455,11 +648,55 @@ def oracle(chk, quick):
         chk.oracle_cases += 1
         with numpy.errstate(all="ignore"):
             v = float(numpy.asarray(Z.zernikeRadialFunc(n, m, numpy.array([1.0]))).ravel()[0])
-        if not abs(v - 1.0) <= 1e-6:
-            chk.fail("radial-at-one:high-order", "zernikeRadialFunc(%d,%d,1) = %r ≠ 1" % (n, m, v), {"n": n, "m": m, "got": v})
+        tol = max(1e-9, 64 * EPS * coef_abs_sum(n, m))     # the terms that cancel are of size Σ|c_i| (4.6e10 for (33, 11))
+        if not abs(v - 1.0) <= tol:
+            chk.fail("radial-at-one:high-order", "zernikeRadialFunc(%d,%d,1) = %r ≠ 1 (tolerance %.3g = 64·eps·Σ|c_i|)" % (n, m, v, tol),
+                     {"n": n, "m": m, "got": v, "tolerance": tol})
 
-    # ---- orthonormality under Noll normalisation: Gram matrix within 2(n_max+1)/N of the identity, N refined
-    sizes = [32, 65, 128] if quick else [32, 65, 128, 255, 512]
+    # ---- the Noll constant itself, exactly: inside the pupil a generated mode divided by the implementation's own radial function and
+    #      the angular factor is the constant sqrt(n+1) (m = 0) or sqrt(2(n+1)) — the normalisation for which the continuous Gram matrix
+    #      is the identity (∫R²ρdρ = 1/(2(n+1)) is checked above).  The Gram bound below cannot see a wrong constant at high order.
+    for it in range(60 if quick else 900):
+        n, m = valid_nm(rng, 12 if quick else 20)
+        N = rng.randint(6, 48)
+        rot = rng.choice([0.0, rng.uniform(-7, 7)])
+        api, A = rng.choice(APIS)
+        by_index = rng.random() < 0.5
+        chk.oracle_cases += 1
+        chk.count("oracle:noll-constant:%s" % ("m=0" if m == 0 else "m≠0"))
+        chk.case(("oracle", "noll-constant", n, m, N, rot, by_index), sample={"n": n, "m": m, "N": N, "rot": rot} if it < 2 else None)
+        with numpy.errstate(all="ignore"):
+            img = A.zernike_noll(as_int(rng, noll_of(n, m)), as_int(rng, N), rot) if by_index else A.zernike_nm(n, m, as_int(rng, N), rot)
+            coords = (numpy.arange(N) - N / 2. + 0.5) / (N / 2.)
+            X, Y = numpy.meshgrid(coords, coords)
+            a = abs(m)
+            shape = Z.zernikeRadialFunc(n, a, numpy.sqrt(X ** 2 + Y ** 2))
+            if m > 0:
+                shape = shape * numpy.cos(a * numpy.arctan2(Y, X) + rot)
+            elif m < 0:
+                shape = shape * numpy.sin(a * numpy.arctan2(Y, X) + rot)
+        idx = 2 * numpy.arange(N) + 1 - N
+        inside = (idx[None, :] ** 2 + idx[:, None] ** 2) <= N * N
+        top_ = float(abs(shape[inside]).max())
+        if not top_ > 1e-9:
+            chk.count("oracle:noll-constant:degenerate-skipped")
+            continue
+        big = inside & (abs(shape) >= 0.05 * top_)
+        ratio = abs(img[big] / shape[big])
+        c = math.sqrt(n + 1) if m == 0 else math.sqrt(2 * (n + 1))
+        est = float(numpy.median(ratio))
+        call = ("zernike_noll(%d,%d,rot=%r)" % (noll_of(n, m), N, rot)) if by_index else ("zernike_nm(%d,%d,%d,rot=%r)" % (n, m, N, rot))
+        rep = {"call": "%s.%s" % (api, call), "n": n, "m": m, "N": N, "rot": rot}
+        tol = max(1e-9, 2000 * EPS * coef_abs_sum(n, a))        # a re-ordered radial sum may differ by eps·Σ|c_i| where |R·trig| >= top/20
+        if not abs(est - c) <= tol * c:
+            chk.fail("noll-constant:%s" % ("m=0" if m == 0 else "m≠0"),
+                     "%s = %r · R_%d^%d(r)·trig inside the pupil, the Noll constant is %r" % (call, est, n, a, c), dict(rep, got=est, expected=c))
+        elif not float(abs(ratio - c).max()) <= tol * c:
+            chk.fail("mode-shape", "%s is not a constant multiple of R_%d^%d(r)·cos/sin(%dθ+rot) inside the pupil (ratio varies by %r)"
+                     % (call, n, a, a, float(ratio.max() - ratio.min())), rep)
+
+    # ---- orthonormality under Noll normalisation: Gram matrix within (n_max+1)/N of the identity, N refined
+    sizes = [32, 65, 128, rng.randint(40, 140)] if quick else [32, 65, 128, 255, 512] + [rng.randint(24, 200) for _ in range(6)]
     for N in sizes:
         for J in ([10, 28] if quick else [3, 10, 21, 28, 45]):
             if N >= 500 and J > 28:
@@ -472,10 +709,10 @@ def oracle(chk, quick):
             G = numpy.einsum("iab,jab->ij", Zs, Zs) / pup.sum()
             nmx = int(Z.zernIndex(J)[0])
             err = float(abs(G - numpy.eye(J)).max())
-            if not err <= 2.0 * (nmx + 1) / N:
+            if not err <= GRAM_C * (nmx + 1) / N:
                 k = int(abs(G - numpy.eye(J)).argmax())
                 chk.fail("gram:noll", "Gram matrix of zernikeArray(%d,%d,rot=%r) differs from I by %r at (%d,%d) (bound %r)"
-                         % (J, N, rot, err, k // J + 1, k % J + 1, 2.0 * (nmx + 1) / N), {"J": J, "N": N, "rot": rot, "err": err})
+                         % (J, N, rot, err, k // J + 1, k % J + 1, GRAM_C * (nmx + 1) / N), {"J": J, "N": N, "rot": rot, "err": err})
 
     # ---- gamma matrices against the exact polynomial derivative of the generated modes:
     #      along a grid line a mode of radial order n is a polynomial of degree <= n, so a (2k+1)-point stencil, 2k >= n, is exact
@@ -518,12 +755,22 @@ def run(chk):
                 "model and the literal binary64 formula); radial values |impl-model| <= 1e-11·Σ|terms|; pixels/arrays/phases <= 1e-9·max(1,|impl|); "
                 "gamma entries <= 1e-6·scale (float32 storage). oracle on the real code: Noll bijection/order/parity exhaustively, explicit "
                 "inverse at random large j; R(1)=1 and radial orthogonality by Gauss–Legendre (exact quadrature) <= 1e-12·Σ|c|Σ|c'|; vanish outside "
-                "(exact), list = slices (1e-12), unit rms/p2v (1e-9), phase linearity (1e-9·scale), Gram-I <= 2(n_max+1)/N; "
-                "gamma identity against an exact stencil derivative <= 1e-5·scale. distinct = distinct argument tuples")
+                "(exact), list = slices (1e-12), unit rms/p2v (1e-9), phase linearity (1e-9·scale), Gram-I <= (n_max+1)/N (observed <= "
+                "0.63(n_max+1)/N for all N in 24..140 and 200..512, J <= 45); the Noll constant read off the pixels: |mode/(R·trig)| = sqrt(n+1) "
+                "or sqrt(2(n+1)) to max(1e-9, 2000·eps·Σ|c_i|) relative (observed 4e-16); call sequences a b c b a x over the three normalisations for one (J, N, rot): "
+                "count = list path asked at the same moment (1e-12; observed 0), unit rms/p2v (1e-9; observed 3e-16), phase = Σ c·list modes "
+                "(1e-9·scale; observed 3e-16), same call twice bit-identical, arrays handed out earlier bit-identical after later calls; "
+                "R_n^m(1)=1 at orders 21–33 within max(1e-9, 64·eps·Σ|c_i|) (observed 0: every term is an exact integer below 2^53); "
+                "zernIndex through every public spelling and numpy.int32/int64 scalars = the Python-int answer; "
+                "gamma identity against an exact stencil derivative <= 1e-5·scale. correspondence also: the exact-rational degeneracy table "
+                "(j <= 28, N <= 12) = thresholded implementation (max-min > 1e-6, Σv² > 1e-12) = exclusion lists of the theorems; "
+                "int(numpy.round(J)), int(numpy.round(N)) of dyadic float counts incl. exact ties. distinct = distinct argument tuples")
     chk.assumptions = [
         "orthonormality of the modes for ALL orders and 'Gram matrix -> identity as the grid is refined' are not proved (no Jacobi-polynomial "
         "theory in Mathlib): proved radial orthogonality over R for n,n' <= 10 (radial_integral + kernel-checked table) + numeric oracle "
-        "(exact Gauss-Legendre radial integrals to n = 14/24; Gram bound 2(n_max+1)/N, a calibrated constant, not a theorem)",
+        "(exact Gauss-Legendre radial integrals to n = 14/24; Gram bound (n_max+1)/N, a calibrated constant (observed <= 0.63), not a "
+        "theorem; the Noll constant itself is read off the generated pixels exactly (mode / (zernikeRadialFunc · cos|sin) inside the pupil), "
+        "which with the exact radial norm 1/(2(n+1)) is the continuous normalisation)",
         "derivative (gamma) identities: proved as HasDerivAt statements (gamma_dx_le12, gamma_dy_le12; gamma_dx_le8, gamma_dy_le8) for the 91 "
         "modes of radial order <= 12 only: the polynomial identity dP_i = sum g_ij P_j is a kernel-checked TABLE (nzrad 8 and 12); for every "
         "nzrad the derivative claim is reduced to that decidable table (gamma_dx_of_table, gamma_dy_of_table), the bridge (modeCart = c * "
@@ -534,7 +781,19 @@ def run(chk):
         "the polar form cos(m*atan2(y,x)+rot) of the code is tied to the Cartesian polynomial model by theorem mode_polar for points given in "
         "polar form and by the pixel correspondence; atan2 itself is not modelled",
         "degenerate normalisations (a mode constant on the grid, e.g. piston for N<=3, defocus for N=2) divide by zero in the code and are "
-        "outside the domain (hypotheses hd / hS of p2v_unit / rms_unit; skipped and counted by the oracle)",
+        "outside the domain (hypotheses hd / hS of p2v_unit / rms_unit; skipped and counted by the oracle). The hypotheses are DISCHARGED "
+        "for the actual images only at rot = 0 and j <= 28, N <= 12 (p2v_unit_noll, rms_unit_noll: kernel-checked exact-rational TABLE with "
+        "the exclusion lists constExcl / zeroExcl — all modes for N = 1; 1,4,6,11,12,14,15,22,24,25,26,28 constant and 4,6,12,15,22,24,25,28 "
+        "zero for N = 2; 1,15,25 constant and 15,25 zero for N = 3; none for 4 <= N <= 12); for any other (j, N) they are reduced to the "
+        "decidable check nonconstPix/nonzeroPix (noll_p2v_ne_zero, noll_sumsq_ne_zero) but not evaluated; for rot ≠ 0 non-degeneracy is "
+        "not proved (special angles can make a mode vanish on a small grid) — sampled by the oracle only",
+        "the count path's int(numpy.round(.)) is modelled for non-negative rational counts (npRound: nearest, ties to even; "
+        "count_float_integral: integral floats = the integer call) and exercised with dyadic floats; negative or non-finite counts are "
+        "outside the domain",
+        "numpy integer scalars narrower than 32 bits are not generated (8*(j-1)+1 wraps for numpy.int16 j > 4096 under NumPy 2 promotion; "
+        "numpy.int32 only below 2^26); index lists are given as list / tuple / int64 array / list of numpy scalars",
+        "statefulness is sampled, not proved: the model is a pure function, the oracle runs call sequences over all orders of the three "
+        "normalisations for one (J, N, rot) and checks earlier results bit-for-bit after later calls",
     ]
     chk.build_and_audit("AoVerif.Props.C12", "AoVerif.Props.C12", REQUIRED)
     modes_ok = True
